@@ -136,6 +136,84 @@ macro_rules! api_mod {
                 }
             }
 
+            /// Entry points that do not return a TwoFloat (conversions, comparisons, text), reduced to words.
+            /// kind: 0 from_i128(bits of a) 1 from_u128 2 from_i64 3 from_u64 4 to_i128 5 to_u128 6 to_i64 7 to_u64
+            ///       8 to_i32 9 to_u8 10 partial_cmp/eq/lt/le(a,b) 11 partial_cmp with f64 b[0] both orders
+            ///       12 Display/LowerExp text hash 13 is_valid/no_overlap/sign queries 14 f64/f32 from
+            pub fn ext(kind: u8, a: [f64; 2], b: [f64; 2]) -> Res {
+                use core::convert::TryFrom;
+                let r = api(|| {
+                    let x = mk(a);
+                    let y = mk(b);
+                    let bits = (a[0].to_bits() as u128) | ((a[1].to_bits() as u128) << 64);
+                    let oi = |v: Option<i128>| match v {
+                        Some(v) => [1, v as u128 as u64, ((v as u128) >> 64) as u64, 0],
+                        None => [0, 0, 0, 0],
+                    };
+                    let w: [u64; 4] = match kind {
+                        0 => {
+                            let t = TF::from(bits as i128);
+                            [t.hi().to_bits(), t.lo().to_bits(), 0, 0]
+                        }
+                        1 => {
+                            let t = TF::from(bits);
+                            [t.hi().to_bits(), t.lo().to_bits(), 0, 0]
+                        }
+                        2 => {
+                            let t = TF::from(bits as i64);
+                            [t.hi().to_bits(), t.lo().to_bits(), 0, 0]
+                        }
+                        3 => {
+                            let t = TF::from(bits as u64);
+                            [t.hi().to_bits(), t.lo().to_bits(), 0, 0]
+                        }
+                        4 => oi(i128::try_from(x).ok()),
+                        5 => match u128::try_from(x).ok() {
+                            Some(v) => [1, v as u64, (v >> 64) as u64, 0],
+                            None => [0, 0, 0, 0],
+                        },
+                        6 => oi(i64::try_from(x).ok().map(|v| v as i128)),
+                        7 => oi(u64::try_from(x).ok().map(|v| v as i128)),
+                        8 => oi(i32::try_from(&x).ok().map(|v| v as i128)),
+                        9 => oi(u8::try_from(x).ok().map(|v| v as i128)),
+                        10 => {
+                            let c = match x.partial_cmp(&y) {
+                                None => 9,
+                                Some(o) => (o as i8 + 1) as u64,
+                            };
+                            [c, (x == y) as u64, (x < y) as u64 | (((x <= y) as u64) << 1) | (((x > y) as u64) << 2) | (((x >= y) as u64) << 3), 0]
+                        }
+                        11 => {
+                            let f = b[0];
+                            let c1 = match x.partial_cmp(&f) {
+                                None => 9,
+                                Some(o) => (o as i8 + 1) as u64,
+                            };
+                            let c2 = match f.partial_cmp(&x) {
+                                None => 9,
+                                Some(o) => (o as i8 + 1) as u64,
+                            };
+                            [c1, c2, (x == f) as u64 | (((f == x) as u64) << 1), 0]
+                        }
+                        12 => {
+                            let s = format!("{} | {:+e} | {:.3} | {:E}", x, x, x, x);
+                            let mut h = 0xcbf29ce484222325u64;
+                            for byte in s.bytes() {
+                                h = (h ^ byte as u64).wrapping_mul(0x100000001b3);
+                            }
+                            [h, s.len() as u64, 0, 0]
+                        }
+                        13 => [x.is_valid() as u64, $k::no_overlap(a[0], a[1]) as u64, x.is_sign_positive() as u64 | ((x.is_sign_negative() as u64) << 1), TF::try_from((a[0], a[1])).is_ok() as u64],
+                        _ => [f64::from(x).to_bits(), f32::from(x).to_bits() as u64, 0, 0],
+                    };
+                    w
+                });
+                match r {
+                    Ok(w) => Res { k: 7, w },
+                    Err(_) => Res { k: 9, w: [0; 4] },
+                }
+            }
+
             #[inline]
             pub fn call_raw(op: Op, a: [f64; 2], b: [f64; 2]) -> Res {
                 let x = mk(a);
